@@ -1219,6 +1219,14 @@ theorem sess_no_leak_iff (c : SCfg) : SessNoLeak c ↔ c.leakFree = true := by
           | true => simp [SCfg.leakFree, hb, hx]
   · exact C18_no_leak c
 
+/-- a request that acquires and then ends WITHOUT its `unlock()` (for instance: the lock taken before the body is
+validated, an early `return` on the validation error) blocks every later step request — whatever the session does.
+(Repaired configuration; per-run fact `invalidRequestHoldsNothing`.) -/
+theorem C18_witness_acquire_without_end (x s0 : Bool) (sess : List SEv)
+    (hs : sess = [] ∨ sess = [.endS, .beginS] ∨ sess = [.beginS] ∨ sess = [.restoreS]) :
+    (strace ⟨true, false, false, x⟩ ([.acq 0] ++ sess ++ [.acq 1]) (SState.init s0 2)).2.getLast? = some "refused" := by
+  rcases hs with rfl | rfl | rfl | rfl <;> cases x <;> cases s0 <;> decide
+
 /-- characterisation: the two facts are exactly what mutual exclusion under session events needs. -/
 theorem sess_mutex_iff (c : SCfg) : SessMutex c ↔ c.mutexOk = true := by
   constructor
@@ -1235,6 +1243,7 @@ theorem sess_mutex_iff (c : SCfg) : SessMutex c ↔ c.mutexOk = true := by
 #print axioms C18_no_leak
 #print axioms accepts_when_idle
 #print axioms sess_mutex_iff
+#print axioms C18_witness_acquire_without_end
 #print axioms sess_no_leak_iff
 #print axioms C18_witness_flag_set_without_session
 #print axioms C18_witness_session_fresh_flag
